@@ -196,9 +196,13 @@ func (ar *ArrayRules) LexicalOrderValidator() ElementValidationFunc {
 func (ar *ArrayRules) LexicalOrderWithoutDupsValidator() ElementValidationFunc {
 	var prev []byte
 	var prevIndex int
+	// an explicit flag instead of "prev == nil": an element with an empty serialized form
+	// is a nil slice on the write side and must still count as the previous element.
+	var hasPrev bool
 
 	return func(index int, next []byte) error {
-		if prev == nil {
+		if !hasPrev {
+			hasPrev = true
 			prevIndex = index
 			prev = next
 
